@@ -551,6 +551,8 @@ def classify(failure, known):
     if "D48" in ids and kind in ("key-not-invertible:camel", "key-not-invertible:snake", "orig-name-not-mapped", "message-class-not-buildable") \
             and (shadows_api(inp.get("field")) or inp.get("class_has_api_named_field")):
         return "D48"
+    if "D48" in ids and kind.startswith("multi-field-roundtrip") and any(shadows_api(f) for f in inp.get("fields", [])):
+        return "D48"
     if "D15" in ids and kind == "key-not-invertible:camel" and inp.get("alpha2") is False \
             and not field_words_alpha2(inp.get("field", "")):
         return "D15"
